@@ -117,20 +117,27 @@ class ImplWorld:
         fn()
         self.orders.append(self.new_task_handles(ctx, before))
 
+    def cancel_kw(self, ctx):
+        """every other cancellation carries a message (`msg=`): same behaviour expected, different code path"""
+        ctx.ncancel = getattr(ctx, "ncancel", 0) + 1
+        return {"msg": f"m{ctx.ncancel}"} if ctx.ncancel % 2 == 0 else {}
+
     def do_hook(self, ctx, h, holder):
         p = ctx.pool
         k = h[0]
         arg = h[1:]
         try:
             if k == "c":
-                p.cancel(*[int(x) for x in arg.split(",") if x])
+                p.cancel(*[int(x) for x in arg.split(",") if x], **self.cancel_kw(ctx))
                 return "ok"
             if k in "go":
                 g = arg if k == "g" else self.own_group(ctx, holder)
-                self.cancel_order_call(ctx, lambda: p.cancel_group(g))
+                kw = self.cancel_kw(ctx)
+                self.cancel_order_call(ctx, lambda: p.cancel_group(g, **kw))
                 return "ok"
             if k == "a":
-                self.cancel_order_call(ctx, p.cancel_all)
+                kw = self.cancel_kw(ctx)
+                self.cancel_order_call(ctx, lambda: p.cancel_all(**kw))
                 return "ok"
             if k == "l":
                 p.lock()
@@ -370,11 +377,13 @@ class ImplWorld:
             elif k == "stop_all":
                 res = "ids:" + "/".join(str(i) for i in p.stop_all())
             elif k == "cancel":
-                p.cancel(*[int(x) for x in toks[1:]])
+                p.cancel(*[int(x) for x in toks[1:]], **self.cancel_kw(ctx))
             elif k == "cancel_group":
-                self.cancel_order_call(ctx, lambda: p.cancel_group(toks[1]))
+                kw = self.cancel_kw(ctx)
+                self.cancel_order_call(ctx, lambda: p.cancel_group(toks[1], **kw))
             elif k == "cancel_all":
-                self.cancel_order_call(ctx, p.cancel_all)
+                kw = self.cancel_kw(ctx)
+                self.cancel_order_call(ctx, lambda: p.cancel_all(**kw))
             elif k == "lock":
                 p.lock()
             elif k == "unlock":
